@@ -192,7 +192,7 @@ pub fn tracegen(opts: &Opts) -> i32 {
     let mut ecount = 0u64;
     let heal_at = opts.u64("heal_at", u64::MAX);
     let recipe = opts.str("recipe", "");
-    if recipe == "f1" {
+    if recipe == "f1" || recipe == "bulkdel" {
         // Directed workload for finding F1: many superseded generations and many expired newest
         // generations interleaved on the device, so that recovery's retirement list is longer than
         // one journal chunk (1024 coalesced extents).
@@ -223,11 +223,33 @@ pub fn tracegen(opts: &Opts) -> i32 {
         };
         let nfill = opts.u64("fillers", 1200);
         let nx = opts.u64("xkeys", 600);
+        if recipe == "bulkdel" {
+            // Directed workload: ONE flush retires more non-adjacent extents than one allocation-journal
+            // transaction can name (1024), so the retirement runs as several transactions.  The
+            // periodic flusher is held so that the deletes are not retired piecemeal.
+            feoxdb::verif::dev::set_periodic_flush_paused(true);
+            for i in 0..nfill {
+                put(format!("bulk{i:05}").as_bytes(), &value_for(i, if i % 2 == 0 { 700 } else { 90 }), None, 0, false);
+            }
+            flush();
+            // delete the records that sit in the even blocks: no two retired extents are adjacent
+            let victims: Vec<Vec<u8>> = st.verif_snapshot().into_iter().filter(|r| r.sector != 0 && r.sector % 2 == 0).map(|r| r.key).collect();
+            for k in victims {
+                let inv = tracer.next();
+                let r = st.delete(&k);
+                let ret = tracer.next();
+                tracer.note(format!("{inv} OP del key={} vh=0 len=0 ret={ret} res={} ts=0", hex(&k), r.as_ref().map(|_| "ok".to_string()).unwrap_or_else(|e| err_name(e))));
+            }
+            flush();
+            feoxdb::verif::dev::set_periodic_flush_paused(false);
+        } else {
         for i in 0..nfill {
             put(format!("fill{i:05}").as_bytes(), &value_for(i, 60), None, 0, false);
         }
         for i in 0..nx {
-            put(format!("xkey{i:05}").as_bytes(), &value_for(10_000 + i, 80), Some(1000), 0, false);
+            // every third one is longer than a sector, so that a torn retirement marker over it leaves a
+            // record head whose body is gone
+            put(format!("xkey{i:05}").as_bytes(), &value_for(10_000 + i, if i % 3 == 0 { 700 } else { 80 }), Some(1000), 0, false);
             put(format!("guard{i:05}").as_bytes(), &value_for(20_000 + i, 40), None, 0, false);
         }
         flush();
@@ -245,7 +267,7 @@ pub fn tracegen(opts: &Opts) -> i32 {
         // puts the new generations into the one-block holes below the old ones
         // as fast as possible (keys and values prepared, notes written afterwards): the whole
         // rewrite must reach the write buffer between two ticks of the periodic flusher
-        let prepared: Vec<(Vec<u8>, Vec<u8>)> = (0..nx).map(|i| (format!("xkey{i:05}").into_bytes(), value_for(30_000 + i, 70))).collect();
+        let prepared: Vec<(Vec<u8>, Vec<u8>)> = (0..nx).map(|i| (format!("xkey{i:05}").into_bytes(), value_for(30_000 + i, if i % 3 == 1 { 900 } else { 70 }))).collect();
         let mut done = Vec::with_capacity(prepared.len());
         for (k, v) in &prepared {
             let inv = tracer.next();
@@ -263,6 +285,7 @@ pub fn tracegen(opts: &Opts) -> i32 {
             ));
         }
         flush();
+        }
     } else {
     for i in 0..nops {
         if i == heal_at {
@@ -274,7 +297,13 @@ pub fn tracegen(opts: &Opts) -> i32 {
             tracer.note(format!("{seq} HEAL"));
         }
         let st = store.as_ref().unwrap();
-        let k = format!("key{}", rng.below(nkeys)).into_bytes();
+        let mut k = format!("key{}", rng.below(nkeys)).into_bytes();
+        // now and then a key as long as a persistent store accepts
+        // (4066 bytes: the v3 header 4+2+key+24 then fills the head sector exactly) and one byte less
+        if (k == b"key0" || k == b"key1") && rng.chance(1, 3) {
+            let want = if k == b"key0" { 4066 } else { 4065 };
+            k.resize(want, b'x');
+        }
         let kind = rng.below(100);
         if ttl && rng.chance(1, 5) {
             // a key family written with small explicit timestamps: with a TTL the generation is
@@ -774,6 +803,57 @@ pub struct Plan {
     pub label: String,
 }
 
+/// crashes inside a window of in-flight data writes: everything in flight reached the device except
+/// that the eight highest in-flight writes are torn (first sector lost, the rest written); for the
+/// first, the fullest and the last fsync that has data writes in flight
+pub fn torn_top_plans(t: &Trace) -> Vec<Plan> {
+    let mut prev = 0u64;
+    let mut windows: Vec<(u64, u64, Vec<usize>)> = Vec::new();
+    for e in &t.evs {
+        if let Ev::F { seq: s2, ok: true } = e {
+            let pend: Vec<usize> = t
+                .evs
+                .iter()
+                .enumerate()
+                .filter_map(|(i, e)| match e {
+                    Ev::W { seq, applied: true, .. } if *seq > prev && *seq < *s2 => Some(i),
+                    _ => None,
+                })
+                .collect();
+            if pend.iter().any(|i| matches!(&t.evs[*i], Ev::W { off, .. } if *off >= 16 * 4096)) {
+                windows.push((prev, *s2, pend));
+            }
+            prev = *s2;
+        }
+    }
+    let pick: Vec<usize> = match windows.len() {
+        0 => vec![],
+        1 => vec![0],
+        2 => vec![0, 1],
+        n => {
+            // the window with the most writes in flight is always among them
+            let big = (0..n).rev().max_by_key(|i| windows[*i].2.len()).unwrap(); // the first of the fullest
+            let mut v = vec![0, big, n - 1];
+            v.dedup();
+            v
+        }
+    };
+    pick.into_iter()
+        .map(|wi| {
+            let (prev, s2, pend) = &windows[wi];
+            // the eight highest in-flight writes are torn
+            let mut by_off: Vec<usize> = pend.clone();
+            by_off.sort_by_key(|i| if let Ev::W { off, .. } = &t.evs[*i] { std::cmp::Reverse(*off) } else { std::cmp::Reverse(0) });
+            let top: Vec<usize> = by_off.into_iter().take(8).collect();
+            let extra = pend
+                .iter()
+                .map(|i| if top.contains(i) { (*i, Some(vec![false, true, true, true, true, true, true, true])) } else { (*i, None) })
+                .collect();
+            Plan { cut: *s2, durable_upto: *prev + 1, extra, label: format!("torn-top-before-fsync{s2}-inflight{}", pend.len()) }
+        })
+        .collect()
+}
+
 /// crash points x subsets x tearing for one trace
 /// crash exactly when an acknowledgement returns: the device as it stands (every issued write
 /// applied) and the durable part only
@@ -911,6 +991,7 @@ pub fn run(opts: &Opts) -> i32 {
     let per = opts.u64("n", if opts.thorough() { 12 } else { 1 });
     let budget = opts.u64("points", if opts.thorough() { 60 } else { 14 }) as usize;
     let hostile = opts.u64("hostile", 0);
+    let bulkdel = opts.u64("bulkdel", 0) == 1;
     let ttl_opt = opts.get("ttl").and_then(|v| v.parse::<u64>().ok());
     let keep = format!("{dir}/images");
     std::fs::create_dir_all(&keep).unwrap();
@@ -922,10 +1003,30 @@ pub fn run(opts: &Opts) -> i32 {
             let mut out = Out::new(&dir, &format!("s{sh}"));
             let mut rng = Rng::new(seed.wrapping_mul(2_654_435_761).wrapping_add(sh));
             let mut nontrivial = 0u64;
-            for w in 0..per {
+            // bulkdel=1: shard 0 adds the directed workload whose single flush retires more
+            // non-adjacent extents than one journal transaction names (recipe bulkdel)
+            let extra_w = (bulkdel && sh == 0) as u64;
+            for w in 0..per + extra_w {
                 let base = format!("{keep}/t{sh}_{w}.feox");
                 let sync = rng.below(2);
-                let g = run_child(
+                let is_bulk = w >= per;
+                let g = if is_bulk {
+                    run_child(
+                        &[
+                            "tracegen".into(),
+                            format!("path={base}"),
+                            format!("seed={}", rng.next() % 1_000_000_007),
+                            "blocks=4096".into(),
+                            "recipe=bulkdel".into(),
+                            "fillers=2300".into(),
+                            format!("sync={sync}"),
+                            "ttl=0".into(),
+                            "close=0".into(),
+                        ],
+                        400,
+                    )
+                } else {
+                    run_child(
                     &[
                         "tracegen".into(),
                         format!("path={base}"),
@@ -939,7 +1040,8 @@ pub fn run(opts: &Opts) -> i32 {
                         format!("close={}", rng.below(2)),
                     ],
                     270,
-                );
+                )
+                };
                 if g.as_deref().map_or(true, |s| !s.starts_with("tracegen-done")) {
                     out.emit3(&format!("note tracegen-failed {:?}", g), "note", "FAIL workload-child-failed-or-hung");
                     continue;
@@ -954,7 +1056,11 @@ pub fn run(opts: &Opts) -> i32 {
                 let nev = t.evs.iter().filter(|e| matches!(e, Ev::W { applied: true, .. } | Ev::F { .. })).count();
                 out.emit3(&format!("monitor {base}"), &format!("accepted events={nev}"), "ok");
                 let mut all_plans = ack_plans(&t);
-                all_plans.extend(plans(&t, &mut rng, budget));
+                all_plans.extend(torn_top_plans(&t));
+                if !is_bulk {
+                    // (the big directed workload keeps to the acknowledgement and in-transaction images)
+                    all_plans.extend(plans(&t, &mut rng, budget));
+                }
                 for (pi, plan) in all_plans.into_iter().enumerate() {
                     let img = build_image(&t, plan.durable_upto, &plan.extra);
                     let ipath = format!("{keep}/t{sh}_{w}_{pi}.img");
@@ -1346,6 +1452,60 @@ pub fn run_f1(opts: &Opts) -> i32 {
         let rsyncs: Vec<u64> = rt.evs.iter().filter_map(|e| if let Ev::F { seq, ok: true } = e { Some(*seq) } else { None }).collect();
         let markers = rt.evs.iter().filter(|e| matches!(e, Ev::W { .. })).count();
         longest = longest.max(markers);
+        // T-run on recovery's own device history: the journal discipline, starting from the journal
+        // and metadata state of the image recovery opened (a marker written outside the extents of
+        // the durable ACTIVE journal is rejected)
+        let nev = rt.evs.iter().filter(|e| matches!(e, Ev::W { applied: true, .. } | Ev::F { .. })).count();
+        out!().emit3(&format!("monitor {work} {p1}"), &format!("accepted events={nev}"), "ok");
+        // crashes INSIDE a transaction of the long retirement: everything in flight reached the
+        // device except that the highest in-flight data write is torn (its first sector lost, the
+        // rest written); for the first, a middle and the last fsync that has data writes in flight
+        {
+            let mut prev = 0u64;
+            let mut windows: Vec<(u64, Vec<usize>)> = Vec::new();
+            for s2 in &rsyncs {
+                let pend: Vec<usize> = rt
+                    .evs
+                    .iter()
+                    .enumerate()
+                    .filter_map(|(i, e)| match e {
+                        Ev::W { seq, off, applied: true, .. } if *seq > prev && *seq < *s2 && *off >= 16 * 4096 => Some(i),
+                        _ => None,
+                    })
+                    .collect();
+                if !pend.is_empty() {
+                    windows.push((prev, pend));
+                }
+                prev = *s2;
+            }
+            let pick: Vec<usize> = match windows.len() {
+                0 => vec![],
+                1 => vec![0],
+                2 => vec![0, 1],
+                n => vec![0, n / 2, n - 1],
+            };
+            for (ti, wi) in pick.into_iter().enumerate() {
+                let (prev, pend) = &windows[wi];
+                let mut by_off: Vec<usize> = pend.clone();
+                by_off.sort_by_key(|i| if let Ev::W { off, .. } = &rt.evs[*i] { std::cmp::Reverse(*off) } else { std::cmp::Reverse(0) });
+                let top: Vec<usize> = by_off.into_iter().take(8).collect();
+                let extra: Vec<(usize, Option<Vec<bool>>)> = pend
+                    .iter()
+                    .map(|i| if top.contains(i) { (*i, Some(vec![false, true, true, true, true, true, true, true])) } else { (*i, None) })
+                    .collect();
+                // everything before the window's opening fsync is durable (seq <= prev)
+                let img2 = build_image(&rt, *prev + 1, &extra);
+                let p2 = format!("{keep}/f1_{pi}_t{ti}.img");
+                std::fs::write(&p2, &img2).unwrap();
+                let (now, recsize, line2) = probe_image(&p2, &format!("{p2}.probe"), true, false);
+                let verdict = match contents_of(&line2) {
+                    None => format!("FAIL crash-inside-recovery-does-not-reopen: {} in-flight={} torn=highest-first-sector-lost", line2.split(' ').take(2).collect::<Vec<_>>().join("_"), pend.len()),
+                    Some(c2) if c2 == c1 => "ok".to_string(),
+                    Some(_) => format!("FAIL contents-after-restarted-recovery-differ-from-first-recovery in-flight={} torn=highest-first-sector-lost", pend.len()),
+                };
+                out!().emit3(&format!("open {p2} ro=0 allow=0 ttl=1 now={now} recsize={recsize} level=2 plan=fsync{s1} inner=torn{ti}"), &line2, &verdict);
+            }
+        }
         for (qi, s2) in rsyncs.iter().enumerate() {
             let img2 = build_image(&rt, *s2, &[]);
             let p2 = format!("{keep}/f1_{pi}_{qi}.img");
@@ -1361,7 +1521,7 @@ pub fn run_f1(opts: &Opts) -> i32 {
             }
             out!().emit3(&format!("open {p2} ro=0 allow=0 ttl=1 now={now} recsize={recsize} level=2 plan=fsync{s1} inner=fsync{qi}"), &line2, &verdict);
         }
-        let _ = std::fs::remove_file(&p1);
+        // p1 stays: the monitor case reads it
     }
     std::fs::write(format!("{dir}/stats.json"), format!("{{\"largest_number_of_writes_in_one_recovery\": {longest}}}")).unwrap();
     let n: u64 = outs.into_iter().map(|o| o.finish()).sum();
@@ -1453,6 +1613,9 @@ pub fn run_recrash(opts: &Opts) -> i32 {
                     }
                     repaired += 1;
                     done += 1;
+                    // T-run on recovery's own device history (journal discipline from the image's state)
+                    let nev = rt.evs.iter().filter(|e| matches!(e, Ev::W { applied: true, .. } | Ev::F { .. })).count();
+                    out.emit3(&format!("monitor {work} {p1}"), &format!("accepted events={nev}"), "ok");
                     // crash points inside recovery 1
                     for (qi, q) in plans(&rt, &mut rng, 8).into_iter().enumerate() {
                         let img2 = build_image(&rt, q.durable_upto, &q.extra);
